@@ -45,7 +45,7 @@ const rule = "case = (engine put in replica mode directly with SetReadOnly(true)
 	"interfaces.Transaction and of pb.KevoService_ServiceDesc, with arguments drawn by type; a hook handler parks the applier inside the storage " +
 	"write so that calls start while an apply is in flight); oracle = after every phase the full scan equals the model of the REPLICATED operations only, " +
 	"every apply succeeds, entry points of the mutator table fail with a read-only error, reads return a value the key held during the phase and never " +
-	"client bytes, the engine stays read-only; GetNodeInfo reports role, primary address and read_only as configured for replica, primary and standalone; " +
+	"client bytes, the engine stays read-only; GetNodeInfo reports role, primary address and read_only as configured for replica, primary and standalone, and for a replica-role node configured with ForceReadOnly=false read_only follows what a client put experiences while the engine flag is set and lifted; " +
 	"in about half of the phases a client transaction (read-only, or read-write and therefore refused/downgraded; embedded or by service handle) stays open across the phase's " +
 	"replicated operations: every apply, every client call and the read inside the open transaction must return within 5 s (normal: far below a millisecond); in manager " +
 	"cases the mutator table and GetNodeInfo are probed again after Manager.Stop: as long as the node reports role replica every mutation is still refused, and read_only agrees " +
@@ -91,7 +91,7 @@ type Phase struct {
 
 // NodeCase is the node-information sub-check on a separate node.
 type NodeCase struct {
-	Mode        string `json:"mode"` // primary | standalone | none
+	Mode        string `json:"mode"` // primary | standalone | none | replica_opt_out
 	ListenAddr  string `json:"listen_addr"`
 	PrimaryAddr string `json:"primary_addr"`
 }
@@ -1048,6 +1048,52 @@ func (x *exec) nodeCase(n *NodeCase) {
 		if err := e.Put([]byte("k"), []byte("v")); err != nil {
 			x.fail("nodeinfo:primary-refuses-writes", ctx, err.Error())
 		}
+	case "replica_opt_out":
+		// a node in the replica role whose operator opted out of the forced
+		// read-only mode (ManagerConfig.ForceReadOnly=false): whether it refuses
+		// client writes is then the engine's own flag, and read_only must say what a
+		// client mutation experiences at that moment - through the flag being set
+		// and lifted again
+		paddr := n.PrimaryAddr
+		if paddr == "" {
+			paddr = "127.0.0.1:1"
+		}
+		mc := managerConfig(replication.ReplicationModeReplica, paddr, n.ListenAddr)
+		mc.ForceReadOnly = false
+		m, err := replication.NewManager(e, mc)
+		if err != nil {
+			return
+		}
+		if err := m.Start(); err != nil {
+			return
+		}
+		defer func() {
+			done := make(chan struct{})
+			go func() { _ = m.Stop(); close(done) }()
+			select {
+			case <-done:
+			case <-time.After(10 * time.Second):
+				ev.R().Count("manager_stop_hung", 1)
+			}
+		}()
+		srv := service.NewKevoServiceServer(e, reg, m)
+		for stage, set := range []int{0, 1, -1} {
+			if set == 1 {
+				e.SetReadOnly(true)
+			} else if set == -1 {
+				e.SetReadOnly(false)
+			}
+			sctx := fmt.Sprintf("%s-stage%d", ctx, stage)
+			perr := e.Put([]byte(fmt.Sprintf("k%d", stage)), []byte("v"))
+			if perr != nil && !saysReadOnly(perr) {
+				return
+			}
+			x.nodeInfo(sctx, srv, pb.GetNodeInfoResponse_REPLICA, paddr, perr != nil)
+			if x.failed() {
+				return
+			}
+		}
+		ev.R().Count("node_replica_opt_out_cases", 1)
 	}
 }
 
@@ -1219,7 +1265,7 @@ func TestProp(t *testing.T) {
 		}
 		c.Keys = gen.Keys(t, 3, 8)
 		c.Node = NodeCase{
-			Mode:        rapid.SampledFrom([]string{"primary", "standalone", "none"}).Draw(t, "nodemode"),
+			Mode:        rapid.SampledFrom([]string{"primary", "standalone", "none", "replica_opt_out"}).Draw(t, "nodemode"),
 			ListenAddr:  rapid.SampledFrom([]string{"127.0.0.1:0", "localhost:0", ":0"}).Draw(t, "nladdr"),
 			PrimaryAddr: rapid.SampledFrom([]string{"", "127.0.0.1:1", "other.example:50052"}).Draw(t, "npaddr"),
 		}
